@@ -160,13 +160,23 @@ Definition doc_ok (ps : list piece) : Prop :=
 
 (* ------------------------------------------------------------------------------------------- *)
 (* how lines may be written inside a text run: the grammar's key = value line with arbitrary blanks *)
-Definition blanks (w : bytes) : Prop := Forall (fun c => c = c_sp \/ c = c_tab) w.
-Definition no_edge_blank (s : bytes) : Prop :=
-  match s with
-  | [] => True
-  | c :: _ => is_conf_blank c = false /\ is_conf_blank (last s 0) = false
-  end.
+Definition blanks (w : bytes) : Prop := Forall (fun c => is_conf_blank c = true /\ c <> c_nl) w.   (* spaces, tabs *)
+Definition edges_ok (s : bytes) : Prop :=
+  (exists c r, s = c :: r /\ is_conf_blank c = false) /\ (exists r c, s = r ++ [c] /\ is_conf_blank c = false).
 Definition clean_key (k : bytes) : Prop :=
-  k <> [] /\ no_edge_blank k /\ ~ In c_eq k /\ ~ In c_nl k /\ hd 0 k <> c_hash /\ last k 0 <> c_cr.
-Definition clean_value (v : bytes) : Prop := no_edge_blank v /\ ~ In c_nl v /\ last v 0 <> c_cr.
+  edges_ok k /\ ~ In c_eq k /\ ~ In c_nl k /\ ~ In c_cr k /\ hd 0 k <> c_hash.
+Definition clean_value (v : bytes) : Prop := v = [] \/ (edges_ok v /\ ~ In c_nl v /\ ~ In c_cr v).
+(* the line as written, and as recorded (trimmed; blanks before an empty value disappear) *)
 Definition kv_line (w0 k w1 w2 v w3 : bytes) : bytes := w0 ++ k ++ w1 ++ [c_eq] ++ w2 ++ v ++ w3.
+Definition kv_text (k w1 w2 v : bytes) : bytes := k ++ w1 ++ [c_eq] ++ match v with [] => [] | _ => w2 ++ v end.
+(* lines joined into a text run, each terminated by a newline *)
+Definition join_lines (ls : list bytes) : bytes := concat (map (fun l => l ++ [c_nl]) ls).
+Definition line_content (seg : bytes) : list bytes := match content_line seg with Some l => [l] | None => [] end.
+
+(* ------------------------------------------------------------------------------------------- *)
+(* how a path is written: /a/b  and  /a/b<key> *)
+Definition path_string (v : list bytes) (k : option bytes) : bytes :=
+  concat (map (fun n => c_slash :: n) v) ++ match k with Some k => c_lt :: k ++ [c_gt] | None => [] end.
+Definition path_name (n : bytes) : Prop := n <> [] /\ ~ In c_slash n /\ ~ In c_lt n.
+Definition path_key (k : bytes) : Prop :=
+  ~ In c_slash k /\ ~ In c_lt k /\ (exists c r, k = c :: r /\ c <> c_gt) /\ (exists r c, k = r ++ [c] /\ c <> c_gt).
